@@ -93,57 +93,82 @@ Base(root) == CASE root \in {"refparam", "global", "self", "refglobal"} -> "pree
                 [] root \in {"valparam", "refval"} -> "copy"
                 [] root \in {"local", "reflocal"} -> "local"
                 [] OTHER -> "na"
-Paths == {"direct", "optchain", "force", "iflet", "wrapper", "arrayof", "closure", "viewclosure", "derefcopy", "boundfn"}
-\* paths that bind the root EXPRESSION's value to a new variable / container: a copy when the root is a value
+PathElems == {"direct", "optchain", "force", "iflet", "wrapper", "arrayof", "closure", "viewclosure", "derefcopy", "boundfn"}
+\* path elements that bind the root EXPRESSION's value to a new variable / container: a copy when it is a value
 Rebinding == {"optchain", "force", "iflet", "arrayof"}
+\* elements after which another element can follow; closures do not change the receiver expression
+Chainable == {"force", "iflet", "wrapper", "arrayof", "closure", "viewclosure", "derefcopy"}
+NonTransforming == {"closure", "viewclosure", "direct"}
+\* a PATH is a sequence of 1..Depth elements, applied left to right
+CONSTANT Depth
+Paths == {<<e>> : e \in PathElems}
+         \cup (IF Depth >= 2 THEN {<<e1, e2>> : e1 \in Chainable, e2 \in PathElems \ {"direct"}} ELSE {})
+PathName(p) == IF Len(p) = 1 THEN p[1] ELSE p[1] \o "+" \o p[2]
+
+\* abstract state while walking a path: is the current receiver expression a reference? whose value is it?
+Start(root) == [ref |-> IsRef(root), base |-> Base(root)]
+StepP(st, e) == IF e = "derefcopy" THEN [ref |-> FALSE, base |-> "copy"]
+                ELSE IF e \in Rebinding /\ ~st.ref THEN [ref |-> FALSE, base |-> "copy"]
+                ELSE IF e = "wrapper" THEN [ref |-> TRUE, base |-> st.base]
+                ELSE st
+RECURSIVE Walk(_, _)
+Walk(st, p) == IF p = << >> THEN st ELSE Walk(StepP(st, Head(p)), Tail(p))
 
 \* well-formedness of a case OUTSIDE purity (type and access rules of the language):
 \*  - a nested container reached through a reference is an unauthorized reference: it cannot be mutated
 \*  - a force-unwrap is not an assignment / swap target; optional chaining and bound functions need a member call
-\*  - only primitives and containers of primitives can be dereferenced (not structs)
+\*  - only primitives and containers of primitives can be dereferenced (not structs), and only references
+\*  - the wrapper struct holds a reference to S
 \*  - conditions cannot contain function expressions
 NestedOps == {"fieldAppend", "fieldDictAppend", "dictNestedAppend"}
 AssignLike == {"indexAssign", "swapElem", "dictAssign"}
 RootsOf(o) == CASE o.tt = "N" -> {"none"} [] o.tt = "St" -> {"account"} [] o.tt = "H" -> {"self"}
-                [] o.op \in NestedOps -> {r \in Roots \ {"account", "none"} : ~IsRef(r)}
                 [] OTHER -> Roots \ {"account", "none"}
-PathOK(o, root, path) ==
-  IF o.tt \in {"N", "St", "H"} THEN path \in {"direct", "closure", "viewclosure"}
-  ELSE /\ (path = "optchain" => o.member)
-       /\ (path = "force"    => o.op \notin AssignLike)
-       /\ (path = "boundfn"  => o.member /\ o.op \notin {"mapImpure", "filterView", "forEachKeyImpure"})
-       /\ (path = "wrapper"  => IsRef(root) /\ o.tt = "S")
-       /\ (path = "derefcopy" => IsRef(root) /\ o.tt \in {"A", "D"})
+\* element e applied in state st, for operation o; last = it is the final element
+ElemOK(o, st, e, last) ==
+  /\ (e \in {"optchain", "boundfn"} => last /\ o.member)
+  /\ (e = "boundfn"  => o.op \notin {"mapImpure", "filterView", "forEachKeyImpure"})
+  /\ (e = "wrapper"  => st.ref /\ o.tt = "S")
+  /\ (e = "derefcopy" => st.ref /\ o.tt \in {"A", "D"})
+RECURSIVE ElemsOK(_, _, _)
+ElemsOK(o, st, p) == p = << >> \/ (ElemOK(o, st, Head(p), Len(p) = 1) /\ ElemsOK(o, StepP(st, Head(p)), Tail(p)))
+\* the element that produced the final receiver expression
+LastTransforming(p) == LET idx == {i \in 1..Len(p) : p[i] \notin NonTransforming} IN
+                       IF idx = {} THEN "direct" ELSE p[CHOOSE i \in idx : \A j \in idx : j <= i]
+PathOK(o, root, p) ==
+  IF o.tt \in {"N", "St", "H"} THEN \A i \in 1..Len(p) : p[i] \in NonTransforming
+  ELSE /\ ElemsOK(o, Start(root), p)
+       /\ (LastTransforming(p) = "force" => o.op \notin AssignLike)
+       /\ (o.op \in NestedOps => ~Walk(Start(root), p).ref)
 Sites == {"body", "pre", "post"}
-SiteOK(o, root, path, site) ==
-  site = "body" \/ (o.val /\ path = "direct" /\ root \in {"refparam", "global", "self", "account", "none"}
+SiteOK(o, root, p, site) ==
+  site = "body" \/ (o.val /\ p = <<"direct">> /\ root \in {"refparam", "global", "self", "account", "none"}
                        /\ o.op \notin {"filterView", "mapImpure"})
 
 \* ---------------------------------------------------------------- the judgement
 \* which value the operation finally touches
-Reach(root, path) ==
-  IF path = "derefcopy" THEN "copy"
-  ELSE IF path \in Rebinding /\ ~IsRef(root) THEN "copy"
-  ELSE Base(root)
+Reach(root, p) == Walk(Start(root), p).base
 
-Effect(o, root, path) ==
-  CASE o.eff = "mutates"   -> IF Reach(root, path) = "preexisting" THEN "mutates" ELSE "none"
+Effect(o, root, p) ==
+  CASE o.eff = "mutates"   -> IF Reach(root, p) = "preexisting" THEN "mutates" ELSE "none"
     [] o.eff = "mutglobal" -> "mutates"
     [] OTHER               -> o.eff
 
-Cases == {[op |-> o.op, tt |-> o.tt, root |-> r, path |-> p, site |-> s] @@ [effect |-> Effect(o, r, p)] :
-            o \in OpsTable, r \in Roots, p \in Paths, s \in Sites}
-Table == {c \in Cases : LET o == CHOOSE o \in OpsTable : o.op = c.op IN
-                          c.root \in RootsOf(o) /\ PathOK(o, c.root, c.path) /\ SiteOK(o, c.root, c.path, c.site)}
+Table == {[op |-> o.op, tt |-> o.tt, root |-> r, path |-> PathName(p), site |-> s, effect |-> Effect(o, r, p)] :
+            <<o, r, p, s>> \in {q \in OpsTable \X Roots \X Paths \X Sites :
+                                  q[2] \in RootsOf(q[1]) /\ PathOK(q[1], q[2], q[3]) /\ SiteOK(q[1], q[2], q[3], q[4])}}
 
 \* ---------------------------------------------------------------- laws of the model
 \* an operation without an intrinsic effect never has one; copies and locals absorb mutation
-ASSUME \A o \in OpsTable, r \in Roots, p \in Paths : o.eff = "none" => Effect(o, r, p) = "none"
-ASSUME \A o \in OpsTable, r \in Roots, p \in Paths :
+ASSUME \A o \in OpsTable, r \in Roots \ {"account", "none"}, p \in Paths : o.eff = "none" => Effect(o, r, p) = "none"
+ASSUME \A o \in OpsTable, r \in Roots \ {"account", "none"}, p \in Paths :
          (o.eff = "mutates" /\ Base(r) \in {"copy", "local"}) => Effect(o, r, p) = "none"
-\* through a reference the path never matters, except for the explicit dereferenced copy
-ASSUME \A o \in OpsTable, r \in Roots, p \in Paths \ {"derefcopy"} :
-         (IsRef(r) /\ o.eff = "mutates") => Effect(o, r, p) = Effect(o, r, "direct")
+\* through a reference the path never matters, unless it contains the explicit dereferenced copy
+ASSUME \A o \in OpsTable, r \in Roots, p \in Paths :
+         (IsRef(r) /\ o.eff = "mutates" /\ \A i \in 1..Len(p) : p[i] # "derefcopy") => Effect(o, r, p) = Effect(o, r, <<"direct">>)
+\* a longer path can only hide a mutation behind a copy, never create one
+ASSUME \A o \in OpsTable, r \in Roots \ {"account", "none"}, p \in Paths :
+         (Len(p) = 2 /\ Effect(o, r, p) = "mutates") => Effect(o, r, <<p[1]>>) = "mutates"
 \* operation names are unique
 ASSUME \A o1 \in OpsTable, o2 \in OpsTable : o1.op = o2.op => o1 = o2
 
